@@ -151,6 +151,9 @@ type Engine struct {
 	lapseEnd int64
 	held     []heldBytes // byte slices received from (or passed to) Forward earlier, with what they must still hold
 	heldRes  []heldBytes // blobs of listed identities and signatures handed out earlier
+	// lastListed is the shim's latest successful listing (blob -> comment); preShim the listing taken just before the lock
+	lastListed map[string]string
+	preShim    map[string]string
 }
 
 func kidFor(tag string, r *rand.Rand) (string, bool) {
@@ -827,6 +830,10 @@ func (e *Engine) opList() {
 		return
 	}
 	listed := blobCounts(keys)
+	e.lastListed = map[string]string{}
+	for _, k := range keys {
+		e.lastListed[string(k.Marshal())] = k.Comment
+	}
 	e.checkListing(ub, t0, t1, listed, "List")
 	e.checkPurgeU(ub, ua, t0, t1, "List", nil)
 	// listed identities must carry the unchanged blob: every listed blob parses to the same key type
@@ -929,8 +936,12 @@ func (e *Engine) checkUnchanged(ub, ua []ident, what string) {
 // pickTarget chooses a public key to name in Sign/Remove.
 func (e *Engine) pickTarget() (ssh.PublicKey, string) {
 	u := e.snapshotU()
+	mShare := 3
+	if e.locked {
+		mShare = 6 // what a locked shim must leave alone includes its in-memory certificates
+	}
 	switch n := e.R.Intn(10); {
-	case n < 3 && len(e.m) > 0:
+	case n < mShare && len(e.m) > 0:
 		bl := make([]string, 0, len(e.m))
 		for b := range e.m {
 			bl = append(bl, b)
@@ -1147,6 +1158,9 @@ func (e *Engine) opRemove() {
 			e.disc([]string{"C08"}, "locked-remove-succeeds", e.describe(blob))
 		}
 		e.checkUnchanged(ub, ua, "remove while locked")
+		if mc, ok := e.m[blob]; ok && !mc.maybe {
+			e.St.Ops["locked remove naming an in-memory hardware certificate"]++
+		}
 		return
 	}
 	_, wasM := e.m[blob]
@@ -1285,6 +1299,13 @@ func (e *Engine) opLock() {
 	case 2:
 		p = append(p, []string{"\n", "\r\n", "\r", " ", "\x00", "\n\n"}[e.R.Intn(6)]...)
 	}
+	var pre map[string]string
+	if !e.locked && !e.klocked {
+		// what the shim shows just before it is locked is what it must show again once unlocked
+		e.lastListed = nil
+		e.opList()
+		pre = e.lastListed
+	}
 	ub := e.snapshotU()
 	nreq := e.Ag.NumRequests()
 	err := e.Shim.Lock(p)
@@ -1318,6 +1339,7 @@ func (e *Engine) opLock() {
 	}
 	e.locked, e.klocked, e.kpass = true, true, p
 	e.preLock, e.snapOK = ub, true
+	e.preShim = pre
 	e.lastU = ub
 }
 
@@ -1372,7 +1394,40 @@ func (e *Engine) opUnlock() {
 		e.locked, e.klocked = false, false
 		if e.snapOK {
 			e.compareViews(e.preLock, e.snapshotU())
+			if e.preShim != nil && len(e.Disc) == 0 {
+				// the shim's own view: everything it listed before the lock and that is still within its validity
+				// window is listed again, with the same comment, and nothing else is
+				e.lastListed = nil
+				e.opList()
+				now := time.Now().Unix()
+				if e.lastListed != nil && len(e.Disc) == 0 {
+					for blob, comment := range e.preShim {
+						if pk, perr := ssh.ParsePublicKey([]byte(blob)); perr == nil {
+							if c, ok := pk.(*ssh.Certificate); ok && timeClass(c, now-2, now+2) != 1 {
+								continue
+							}
+						}
+						got, ok := e.lastListed[blob]
+						if !ok {
+							e.disc([]string{"C08"}, "identity-listed-before-lock-missing-after-unlock", e.describe(blob))
+							break
+						}
+						if got != comment {
+							e.disc([]string{"C08"}, "identity-comment-differs-after-unlock", fmt.Sprintf("%s: %q before the lock, %q after the unlock", e.describe(blob), comment, got))
+							break
+						}
+					}
+					for blob := range e.lastListed {
+						if _, ok := e.preShim[blob]; !ok {
+							e.disc([]string{"C08"}, "identity-appears-after-unlock", e.describe(blob))
+							break
+						}
+					}
+					e.St.Ops["shim listings compared across a lock/unlock pair"]++
+				}
+			}
 		}
+		e.preShim = nil
 		return
 	}
 	if err == nil {
